@@ -136,7 +136,9 @@ func (t *term) build() {
 	t.text = id
 }
 
-var refNames = []string{"a", "b", "x-1.0", "MIT", "GPL-2.0-or-later", "A.b-c"}
+var refNames = []string{"a", "b", "x-1.0", "MIT", "GPL-2.0-or-later", "A.b-c",
+	// names that look like other lexemes: operator words, words embedded between dots, license spellings with suffixes
+	"AND", "OR", "WITH", "and", "dual.or.commercial", "a.and.b", "x.with.y", "or", "MIT-or-later", "Apache-2.0-or-later", "Apache-2.0-only", "acme-eula", "ACME-EULA"}
 var docNames = []string{"d", "e.1", "spdx-tool-1.2"}
 
 func genBaseID() string {
@@ -390,6 +392,16 @@ func siblingTerm(t *term) *term {
 		return n
 	}
 	n.base, n.suffix, n.plus, n.exc = t.base, t.suffix, t.plus, t.exc
+	if rng.Intn(8) == 0 {
+		// a reference whose NAME is this term's own license text (the text then occurs twice in the expression, once inside a
+		// LicenseRef- / DocumentRef- id)
+		r := &term{isRef: true, ref: t.base + t.suffix, caseMod: -1}
+		if rng.Intn(3) == 0 {
+			r.doc, r.ref = t.base+t.suffix, "notice"
+		}
+		r.build()
+		return r
+	}
 	switch rng.Intn(6) {
 	case 0, 1:
 		if t.exc == "" {
